@@ -807,7 +807,8 @@ func TypeConforms(ctx map[ast.Variable]ast.BaseTerm, left ast.BaseTerm, right as
 	}
 	if leftConst, ok := left.(ast.Constant); ok {
 		if rightConst, ok := right.(ast.Constant); ok {
-			if strings.HasPrefix(leftConst.Symbol, rightConst.Symbol) {
+			// /foo/bar <: /foo: the prefix has to end at a part boundary.
+			if strings.HasPrefix(leftConst.Symbol, rightConst.Symbol+"/") {
 				return true
 			}
 			return leftConst.Type == ast.NameType && rightConst.Equals(ast.NameBound)
